@@ -98,6 +98,7 @@ var c14Specs = map[string][]termSpec{
 func specRegexp(pat string) *regexp.Regexp {
 	q := regexp.QuoteMeta(pat)
 	q = strings.ReplaceAll(q, regexp.QuoteMeta("<_>"), `[^,()\[\]{};]+`)
+	q = strings.ReplaceAll(q, regexp.QuoteMeta("<str>"), `"(?:[^"\\]|\\.)*"`)
 	return regexp.MustCompile("^" + q + "$")
 }
 
